@@ -332,6 +332,14 @@ BeginConstruct ==
     /\ g' = [g EXCEPT !.restarts = @ + 1]
     /\ UNCHANGED <<cfg, dir, now>>
 
+\* ... possibly with other constructor arguments than the previous process used
+BeginConstructWith(c) ==
+    /\ ~sk.alive
+    /\ cfg' = c
+    /\ sk' = [Dead EXCEPT !.alive = TRUE, !.pc = "ctor"]
+    /\ g' = [g EXCEPT !.restarts = @ + 1, !.reconfigured = @ \/ (c # cfg /\ g.restarts > 0)]
+    /\ UNCHANGED <<dir, now>>
+
 StepInt ==
     /\ sk.alive /\ ~AtRest(Here) /\ ~NeedsSys(Here)
     /\ Become(DoInt(Here, cfg, now))
@@ -367,7 +375,7 @@ Ghost0(D0, rlen0, rday0, hist0) ==
      flushed |-> RecSet(hist0), removed |-> {}, retired |-> {},
      used |-> RotNames(D0), used0 |-> RotNames(D0), order |-> <<>>,
      foreign0 |-> [n \in {x \in DOMAIN D0 : IsForeign(x)} |-> D0[n]],
-     crashed |-> FALSE, faulted |-> FALSE, stale |-> FALSE, restarts |-> 0, fatalLost |-> FALSE]
+     crashed |-> FALSE, faulted |-> FALSE, stale |-> FALSE, restarts |-> 0, fatalLost |-> FALSE, reconfigured |-> FALSE]
 
 InitWith(c, D0, rlen0, rday0, hist0, t0) ==
     /\ cfg = c /\ dir = D0 /\ sk = Dead /\ now = t0
